@@ -306,8 +306,16 @@ func genStr(rng *rand.Rand) string {
 	}
 	b := make([]byte, n)
 	mode := rng.Intn(3)
+	if rng.Intn(30) == 0 {
+		// UTF-8 continuation bytes only (no rune ever starts), longer than any prefix a log line would keep
+		n = 65 + rng.Intn(140)
+		b = make([]byte, n)
+		mode = 3
+	}
 	for i := range b {
 		switch mode {
+		case 3:
+			b[i] = byte(0x80 + rng.Intn(0x40))
 		case 0:
 			b[i] = byte(rng.Intn(256))
 		case 1:
@@ -408,6 +416,9 @@ func genVals(rng *rand.Rand) []string {
 	v := make([]string, n)
 	for i := range v {
 		v[i] = genStr(rng)
+		if i > 0 && rng.Intn(4) == 0 {
+			v[i] = v[rng.Intn(i)] // a value list may hold the same value more than once (also the empty one)
+		}
 	}
 	return v
 }
